@@ -1,23 +1,228 @@
 /-
-C11 — every intermediate on-disk state is readable and a prefix state.   (theorems are being added)
+C11 — every intermediate on-disk state of the store is readable and a prefix state.
+
+The store of C10, but every writer operation is expanded into its list of file effects
+(`createEmpty | truncate n | sliceWrite pos bytes`) in the order the source performs them (`Generated/Mmap.lean`,
+re-extracted on every run: `skeleton_wellformed`).  A cut point `k` of a history is the file system after the first `k`
+effects.  Hypotheses as in C10: `8 ≤ initSize`, `4 ≤ pageSize`, the file stays below 2^31 bytes.
+
+FINDING F11 (confirmed on the real code): at the cut between file creation and the first truncate the file has length 0
+and the collector's reader raises struct.error, which fails the whole scrape.  `every_cut_readable_partial` and
+`one_file_cannot_fail_scrape_partial` exclude exactly that cut; `zero_length_cut_unreadable` shows the model exhibits it.
+A new writer reopening the file is NOT affected (`every_cut_reopenable` holds at every cut, that one included).
 -/
 import PromVerif.Model.MmapDict
 import PromVerif.Spec.MmapDict
+import PromVerif.Lemmas.MmapSpecial
 
 namespace PromVerif.Props.C11
-open PromVerif.Generated.Mmap
+open PromVerif.Py PromVerif.Model.MmapDict PromVerif.Generated.Mmap PromVerif.Lemmas.Mmap
+open PromVerif.Spec.MmapDict (Store PrefixFrom PrefixState Written)
 
 /-- the extractor found every site of mmap_dict.py in the shape it understands -/
 theorem extract_ok : extractOk = true := by decide
 
 /-- the order of the file effects in the source: the file is sized before it is mapped and given a header; an entry is
 written completely before the used-bytes header is published; growth is a loop; a value update is one 16-byte slice
-assignment -/
+assignment; the reader is bounded by the header -/
 theorem skeleton_wellformed :
     ctorEffects = [.openFile, .truncateInitial, .remap, .writeHeader] ∧
     initValueEffects = [.growLoop, .writeEntry, .writeHeader] ∧
     growBody = [.truncateGrow, .remap] ∧ growKind = .whileLoop ∧
     writeValueEffects = [.callInitValue, .writeValue] ∧
     packTwoDoublesSlice = twoDoublesWidth ∧ packIntegerSlice = intWidth ∧ readerUsesHeaderBound = true := by decide
+
+/-- the history fits below 2^31 bytes: header + one entry per distinct key -/
+def FitsAll (ops : List Op) : Prop := 8 + need [] ops < 2147483648
+
+/-- the file system after the first `k` effects -/
+def cut (effs : List Effect) (k : Nat) : Option Bytes := applyEffects none (effs.take k)
+
+/-- the (key, value, timestamp) triples of a reader result -/
+def tr3 (items : List Item) : Store := items.map fun x => (x.1, x.2.1, x.2.2.1)
+
+/-- shape of every history of a fresh writer: create, size, header, then the operations; every later cut is a
+represented file of a prefix state -/
+theorem run_shape (initSize : Nat) (ops : List Op) (hi : 8 ≤ initSize) (hf : FitsAll ops) :
+    ∃ d tr, run initSize ops = .ok (d, .createEmpty :: .truncate initSize :: .sliceWrite 0 (le 4 8) :: tr) ∧
+      applyEffects (some (freshStore initSize).file) tr = some d.file ∧
+      ∀ s ∈ states (some (freshStore initSize).file) tr, ∃ file esx, s = some file ∧ CutRep file esx ∧
+        PrefixState (ops.map toSpec) (triples esx) := by
+  have hr0 := freshStore_rep initSize hi
+  obtain ⟨d, tr, hrun, hfin, hcuts⟩ := cuts_from initSize ops hr0 (by simpa [freshStore, FitsAll] using hf)
+  exact ⟨d, tr, by simp [run, init_fresh initSize hi, hrun, bind, Except.bind], hfin, hcuts⟩
+
+/-- the effect list of a history, replayed on an empty file system, produces exactly the file of the C10 store: the
+effect expansion and the state model are the same writer -/
+theorem effects_replay (initSize : Nat) (ops : List Op) (hi : 8 ≤ initSize) (hf : FitsAll ops) :
+    ∃ d effs, run initSize ops = .ok (d, effs) ∧ applyEffects none effs = some d.file := by
+  obtain ⟨d, tr, hrun, hfin, _⟩ := run_shape initSize ops hi hf
+  refine ⟨d, _, hrun, ?_⟩
+  rw [← hfin]
+  simp [applyEffects, applyEffect, truncate, sliceWrite_header_zeros initSize hi, freshStore]
+
+/-- the cuts of such an effect list -/
+theorem cut_cases (initSize : Nat) (tr : List Effect) (hi : 8 ≤ initSize) (k : Nat) :
+    let effs := Effect.createEmpty :: .truncate initSize :: .sliceWrite 0 (le 4 8) :: tr
+    (k = 0 ∧ cut effs k = none) ∨ (k = 1 ∧ cut effs k = some []) ∨ (k = 2 ∧ cut effs k = some (zeros initSize)) ∨
+    (3 ≤ k ∧ cut effs k ∈ states (some (freshStore initSize).file) tr) := by
+  intro effs
+  match k with
+  | 0 => exact Or.inl ⟨rfl, rfl⟩
+  | 1 => exact Or.inr (Or.inl ⟨rfl, rfl⟩)
+  | 2 =>
+    refine Or.inr (Or.inr (Or.inl ⟨rfl, ?_⟩))
+    simp [cut, effs, applyEffects, applyEffect, truncate]
+  | k + 3 =>
+    refine Or.inr (Or.inr (Or.inr ⟨by omega, ?_⟩))
+    have : cut effs (k + 3) = applyEffects (some (freshStore initSize).file) (tr.take k) := by
+      simp [cut, effs, applyEffects, applyEffect, truncate, sliceWrite_header_zeros initSize hi, freshStore]
+    rw [this]
+    exact cut_mem_states _ _ _
+
+/-
+FULL STATEMENT (does not hold, F11): for every history and every cut k ≥ 1 the file reader succeeds and returns a prefix
+state.  Missing part: the cut k = 1 (file created, not yet sized: length 0), where the reader raises struct.error —
+`zero_length_cut_unreadable`.  Suggested repair in `read_all_values_from_file` / `_read_metrics`: treat a file shorter than
+the header as empty.
+-/
+/-- for every history and every cut other than the zero-length one, the collector's file reader succeeds and returns the
+spec state after some prefix of the completed operations, optionally plus the in-flight new key at (0, 0) -/
+theorem every_cut_readable_partial (initSize pageSize : Nat) (ops : List Op) (hi : 8 ≤ initSize) (hp : 4 ≤ pageSize)
+    (hf : FitsAll ops) :
+    ∃ d effs, run initSize ops = .ok (d, effs) ∧ ∀ k, k ≠ 1 →
+      (k = 0 ∧ cut effs k = none) ∨
+      ∃ file items, cut effs k = some file ∧ readAllValuesFromFile pageSize file = .ok items ∧
+        PrefixState (ops.map toSpec) (tr3 items) := by
+  obtain ⟨d, tr, hrun, _, hcuts⟩ := run_shape initSize ops hi hf
+  refine ⟨d, _, hrun, ?_⟩
+  intro k hk
+  rcases cut_cases initSize tr hi k with h | h | h | h
+  · exact Or.inl h
+  · exact absurd h.1 hk
+  · exact Or.inr ⟨_, [], h.2, fromFile_zeros pageSize initSize (by omega) hp, prefixFrom_here _ _⟩
+  · obtain ⟨file, esx, hs, ⟨u, tl, hfr, _⟩, hpre⟩ := hcuts _ h.2
+    refine Or.inr ⟨file, scanOut 8 esx, hs, hfr.fromFile_ok pageSize hp, ?_⟩
+    simp only [tr3]; rw [scanOut_triples]; exact hpre
+
+/-- the model exhibits F11: in every history the first cut is a zero-length file, on which the file reader raises
+struct.error — and with it the collector's loop over all files, whatever the other files hold -/
+theorem zero_length_cut_unreadable (initSize pageSize : Nat) (ops : List Op) (hi : 8 ≤ initSize) (hf : FitsAll ops) :
+    ∃ d effs, run initSize ops = .ok (d, effs) ∧ cut effs 1 = some [] ∧
+      readAllValuesFromFile pageSize [] = .error .structError ∧
+      ∀ healthy items rest, readAllValuesFromFile pageSize healthy = .ok items →
+        readMetrics pageSize (healthy :: [] :: rest) = .error .structError := by
+  obtain ⟨d, tr, hrun, _, _⟩ := run_shape initSize ops hi hf
+  exact ⟨d, _, hrun, rfl, fromFile_empty pageSize,
+    fun healthy items rest h => readMetrics_fail pageSize healthy items [] rest _ h (fromFile_empty pageSize)⟩
+
+/-- … and so does any file shorter than the 4-byte counter -/
+theorem short_file_unreadable (pageSize : Nat) (f : Bytes) (h : f.length < 4) :
+    readAllValuesFromFile pageSize f = .error .structError := fromFile_short pageSize f h
+
+/-- at the cut after the initial truncate and before the header write the file is all zero (used = 0): the reader returns
+the empty state, a new writer opens it as a fresh store -/
+theorem all_zero_file_ok (initSize pageSize n : Nat) (hn : 8 ≤ n) (hp : 4 ≤ pageSize) :
+    readAllValuesFromFile pageSize (zeros n) = .ok [] ∧
+    init initSize (zeros n) = .ok (freshStore n, [.sliceWrite 0 (le 4 8)]) :=
+  ⟨fromFile_zeros pageSize n (by omega) hp, init_zeros initSize n hn⟩
+
+/-- at EVERY cut where the file exists — the zero-length one included — a new writer's constructor succeeds, yields a
+store satisfying the (crash-tolerant) invariant of C10, whose content is a prefix state -/
+theorem every_cut_reopenable (initSize : Nat) (ops : List Op) (hi : 8 ≤ initSize) (hf : FitsAll ops) :
+    ∃ d effs, run initSize ops = .ok (d, effs) ∧ ∀ k, 1 ≤ k →
+      ∃ file d' tr' es tail, cut effs k = some file ∧ init initSize file = .ok (d', tr') ∧ Rep d' es tail ∧
+        PrefixState (ops.map toSpec) (absOf d') := by
+  obtain ⟨d, tr, hrun, _, hcuts⟩ := run_shape initSize ops hi hf
+  refine ⟨d, _, hrun, ?_⟩
+  intro k hk
+  have hfresh := freshStore_rep initSize hi
+  rcases cut_cases initSize tr hi k with h | h | h | h
+  · omega
+  · exact ⟨_, _, _, [], _, h.2, init_fresh initSize hi, hfresh, by rw [hfresh.absOf_eq]; exact prefixFrom_here _ _⟩
+  · exact ⟨_, _, _, [], _, h.2, init_zeros initSize initSize hi, hfresh,
+      by rw [hfresh.absOf_eq]; exact prefixFrom_here _ _⟩
+  · obtain ⟨file, esx, hs, hc, hpre⟩ := hcuts _ h.2
+    obtain ⟨d', hinit, tl, hr⟩ := init_cutrep hc initSize
+    exact ⟨file, d', [], esx, tl, hs, hinit, hr, by rw [hr.absOf_eq]; exact hpre⟩
+
+/-- every key and every (value, timestamp) pair a reader returns at any cut was an argument of some operation of the
+history (or is the initial zero pair of a key the history created) -/
+theorem never_written_never_read (initSize pageSize : Nat) (ops : List Op) (hi : 8 ≤ initSize) (hp : 4 ≤ pageSize)
+    (hf : FitsAll ops) :
+    ∃ d effs, run initSize ops = .ok (d, effs) ∧ ∀ k file items, cut effs k = some file →
+      readAllValuesFromFile pageSize file = .ok items →
+      ∀ x ∈ tr3 items, Written (ops.map toSpec) x.1 x.2.1 x.2.2 := by
+  obtain ⟨d, effs, hrun, hall⟩ := every_cut_readable_partial initSize pageSize ops hi hp hf
+  refine ⟨d, effs, hrun, ?_⟩
+  intro k file items hc hrd x hx
+  by_cases hk : k = 1
+  · -- the zero-length cut returns nothing at all
+    subst hk
+    obtain ⟨d2, tr, hrun2, _, _⟩ := run_shape initSize ops hi hf
+    rw [hrun] at hrun2
+    cases hrun2
+    have : file = [] := by simpa [cut, applyEffects, applyEffect] using hc.symm
+    subst this
+    rw [fromFile_empty] at hrd
+    cases hrd
+  · rcases hall k hk with h | ⟨file', items', hc', hrd', hpre⟩
+    · rw [h.2] at hc; cases hc
+    · rw [hc] at hc'; cases hc'
+      rw [hrd] at hrd'; cases hrd'
+      rcases prefixFrom_written [] _ _ hpre x hx with h | h
+      · simp at h
+      · exact h
+
+/-- a value update of an existing key is ONE effect, a 16-byte slice write at the key's value field: the file goes from
+the old state directly to the new one (never through a zeroed field) -/
+theorem value_update_single_effect {d es1 e es2 tail} (h : Rep d (es1 ++ e :: es2) tail) (hk : e.key ∉ keys es1)
+    (v t : UInt64) :
+    ∃ d' q, writeValue d e.key v t = .ok (d', [.sliceWrite q (le64 v ++ le64 t)]) ∧
+      (le64 v ++ le64 t).length = packTwoDoublesSlice ∧
+      states (some d.file) [.sliceWrite q (le64 v ++ le64 t)] = [some d.file, some d'.file] ∧
+      Rep d' (es1 ++ ⟨e.key, v, t⟩ :: es2) tail :=
+  ⟨_, _, writeValue_present h hk v t, by simp [packTwoDoublesSlice], by simp [states, applyEffect, valueBytes],
+    (storeValue_ok h hk v t).2⟩
+
+/-
+FULL STATEMENT (does not hold, F11): the collector's loop over n worker files at arbitrary independent cuts is `.ok`.
+Missing part: files at the zero-length cut (`zero_length_cut_unreadable`).
+-/
+/-- one dead or busy worker cannot fail the scrape: over any number of files, each at an arbitrary cut other than the
+zero-length one (a represented file, or the all-zero file), the collector's reading loop succeeds -/
+theorem one_file_cannot_fail_scrape_partial (pageSize : Nat) (hp : 4 ≤ pageSize) (files : List Bytes)
+    (h : ∀ f ∈ files, (∃ es, CutRep f es) ∨ ∃ n, 4 ≤ n ∧ f = zeros n) :
+    ∃ r, readMetrics pageSize files = .ok r := by
+  apply readMetrics_ok
+  intro f hf
+  rcases h f hf with ⟨es, u, tl, hfr, _⟩ | ⟨n, hn, rfl⟩
+  · exact ⟨_, hfr.fromFile_ok pageSize hp⟩
+  · exact ⟨_, fromFile_zeros pageSize n hn hp⟩
+
+/-! ### non-vacuity -/
+
+def demoOps : List Op :=
+  [.write ['a'] 1 2, .write ['é', 'x'] 0x7ff8000000000001 0x8000000000000000,
+   .write ['k', 'e', 'y', '-', '3'] 5 6, .reopen, .write ['a'] 7 8, .read ['n', 'e', 'w']]
+
+theorem demo_fits : FitsAll demoOps := by unfold FitsAll; decide
+
+/-- a concrete history (64-byte initial file, so the third key forces a doubling): all its cuts but the first are readable -/
+example : ∃ d effs, run 64 demoOps = .ok (d, effs) ∧ ∀ k, k ≠ 1 →
+    (k = 0 ∧ cut effs k = none) ∨ ∃ file items, cut effs k = some file ∧
+      readAllValuesFromFile 4096 file = .ok items ∧ PrefixState (demoOps.map toSpec) (tr3 items) :=
+  every_cut_readable_partial 64 4096 demoOps (by decide) (by decide) demo_fits
+
+example : CutRep (freshStore 64).file [] := ⟨_, _, (freshStore_rep 64 (by decide)).file, by simp⟩
+
+example : ∃ r, readMetrics 4096 [(freshStore 64).file, zeros 64, (freshStore 128).file] = .ok r :=
+  one_file_cannot_fail_scrape_partial 4096 (by decide) _ (by
+    intro f hf
+    simp only [List.mem_cons, List.not_mem_nil, or_false] at hf
+    rcases hf with rfl | rfl | rfl
+    · exact Or.inl ⟨[], _, _, (freshStore_rep 64 (by decide)).file, by simp⟩
+    · exact Or.inr ⟨64, by decide, rfl⟩
+    · exact Or.inl ⟨[], _, _, (freshStore_rep 128 (by decide)).file, by simp⟩)
 
 end PromVerif.Props.C11
